@@ -43,6 +43,23 @@ def gen_spec(rng, tier="quick", for_crash=False):
         ts = [t0 + rng.randint(0, span) for _ in range(n)]
         if rng.random() < 0.3:
             ts = [t // 1000 * 1000 for t in ts]
+    if kind in ("date", "datetime") and rng.random() < 0.3:
+        # calendar edges: the earliest or the latest datum is a month end / leap day / year end, at spans that select day, month and
+        # year ticks (the code steps such dates by months and years when it makes the axis domain nice and enumerates ticks)
+        y = rng.choice([1904, 1996, 2000, 2020, 2024, 2100, rng.randint(1900, 2190)])
+        leap = y % 4 == 0 and (y % 100 != 0 or y % 400 == 0)
+        mo, dd = rng.choice([(1, 29), (1, 30), (1, 31), (3, 31), (5, 31), (8, 31), (10, 31), (12, 31), (2, 29 if leap else 28), (2, 28), (1, 1), (3, 1)])
+        a = datetime(y, mo, dd)
+        spans = rng.choice([1, 2, 7, 20, 31, 59, 150, 300, 365, 366, 800, 2000, 5000, 20000])
+        edge_last = rng.random() < 0.6
+        days = [rng.randint(0, spans) for _ in range(max(0, n - 1))] + [0]
+        ds = [a - timedelta(days=k) if edge_last else a + timedelta(days=k) for k in days]
+        ds = [d for d in ds if 1900 <= d.year <= 2199] or [a]
+        if kind == "date":
+            ts = [d.date().isoformat() for d in ds]
+        else:
+            tod = rng.choice([0, 0, 1, 43200000, DAY - 1, rng.randint(0, DAY - 1)])
+            ts = [to_ms(d) + (tod if k == len(ds) - 1 else rng.choice([0, rng.randint(0, DAY - 1)])) for k, d in enumerate(ds)]
     if for_crash and rng.random() < 0.15:
         ts = [ts[0]] * n                          # all data at the same time: degenerate domain
     if rng.random() < 0.5:
